@@ -35,7 +35,7 @@ type NormalDistribution struct {
 /* -------------------------------------------------------------------------- */
 
 func NewNormalDistribution(mu, sigma Scalar) (*NormalDistribution, error) {
-  if sigma.GetFloat64() <= 0.0 {
+  if !(sigma.GetFloat64() > 0.0) {
     return nil, fmt.Errorf("invalid parameters")
   }
   dist := NormalDistribution{}
